@@ -11,6 +11,7 @@ import (
 	"math/bits"
 	"sort"
 	"strings"
+	"syscall"
 	"testing"
 	"time"
 
@@ -487,17 +488,29 @@ func c02Judge(a *c02Acc, form, stage, class string, authorized bool, why string,
 
 // runMap enumerates every signature map of the spend (digit per (input,index):
 // absent or one of 5 signature kinds). first>=0 fixes the first digit (work split).
-func (w *c02World) runMap(c *verifmc.Check, sp *c02Spend, first int, throughBytes bool) {
-	type slot struct{ p, i int }
+//
+// reducedOOR: the out-of-range index n (no key exists there, so "another key"
+// / "other payload" have no distinct meaning) takes {absent, a valid signature
+// of key 0, junk} only.
+func (w *c02World) runMap(c *verifmc.Check, sp *c02Spend, first int, throughBytes, reducedOOR bool) {
+	type slot struct {
+		p, i  int
+		kinds []int
+	}
+	full := []int{c02Absent, c02Valid, c02OtherSame, c02OtherInput, c02OtherPayload, c02Junk}
 	var slots []slot
 	for p, u := range sp.Ins {
 		for i := 0; i <= u.N; i++ {
-			slots = append(slots, slot{p, i})
+			if i == u.N && reducedOOR {
+				slots = append(slots, slot{p, i, []int{c02Absent, c02Valid, c02Junk}})
+			} else {
+				slots = append(slots, slot{p, i, full})
+			}
 		}
 	}
 	radices := make([]int, len(slots))
 	for k := range radices {
-		radices[k] = c02Kinds
+		radices[k] = len(slots[k].kinds)
 	}
 	lo := 0
 	if first >= 0 {
@@ -510,26 +523,37 @@ func (w *c02World) runMap(c *verifmc.Check, sp *c02Spend, first int, throughByte
 	var kb strings.Builder
 	acc := c02NewAcc(c)
 	defer acc.flush()
+	for p := range maps {
+		maps[p] = make(map[uint16]*crypto.Signature, 4)
+	}
+	// one transaction object per unit: the payload (and its cached hash) is the
+	// same for every case, only the signature maps change
+	shared := sp.Tx.AsVersioned()
 	verifmc.Product(radices, func(d []int) bool {
 		if first >= 0 {
 			digits[0] = first
 		}
 		copy(digits[lo:], d)
 		for p := range maps {
-			maps[p] = make(map[uint16]*crypto.Signature, 4)
+			clear(maps[p])
 		}
 		kb.Reset()
 		kb.WriteString(form + "|" + sp.Label)
-		valid := make([]uint32, len(sp.Ins))
+		var valid [2]uint32
 		zeroT := false
 		for k, s := range slots {
-			kind := digits[k]
+			kind := s.kinds[digits[k]]
 			if kind == c02Absent {
 				continue
 			}
 			maps[s.p][uint16(s.i)] = sp.sig[s.p][s.i][kind]
 			valid[s.p] |= sp.vmask[s.p][s.i][kind] & sp.own[s.p]
-			fmt.Fprintf(&kb, "|%d.%d=%s", s.p, s.i, sp.desc[s.p][s.i][kind])
+			kb.WriteByte('|')
+			kb.WriteByte(byte('0' + s.p))
+			kb.WriteByte('.')
+			kb.WriteByte(byte('0' + s.i))
+			kb.WriteByte('=')
+			kb.WriteString(sp.desc[s.p][s.i][kind])
 		}
 		authorized, why := true, "every input reaches its threshold"
 		for p, u := range sp.Ins {
@@ -541,7 +565,7 @@ func (w *c02World) runMap(c *verifmc.Check, sp *c02Spend, first int, throughByte
 				zeroT = true
 			}
 		}
-		ver := sp.Tx.AsVersioned()
+		ver := shared
 		ver.SignaturesMap = maps
 		if throughBytes {
 			dec, err := common.UnmarshalVersionedTransaction(ver.Marshal())
@@ -557,11 +581,11 @@ func (w *c02World) runMap(c *verifmc.Check, sp *c02Spend, first int, throughByte
 			c.Add("accepted_spending_a_threshold_zero_output", 1)
 		}
 		c02Judge(acc, form, stage, class, authorized, why, false,
-			func() string { return fmt.Sprintf("%s:accept-unauthorized:%s", form, sp.shape()) },
+			func() string { return form + ":accept-unauthorized" },
 			func() any {
-				return map[string]any{"form": "signature-map", "inputs": sp.Label, "digits_per_input_index(0=absent,1=valid,2=same-utxo-other-key,3=other-input-key,4=other-payload,5=junk)": append([]int(nil), digits...), "case": kb.String(), "tx": c02Hex(ver)}
+				return map[string]any{"form": "signature-map", "inputs": sp.Label, "thresholds": sp.shape(), "choice_per_input_index": append([]int(nil), digits...), "case": kb.String(), "tx": c02Hex(ver)}
 			})
-		if stage == "accept" && len(sp.Ins) == 2 && sp.Ins[0].T == 2 && sp.Ins[1].T == 1 && first == c02Valid {
+		if stage == "accept" && len(sp.Ins) == 2 && sp.Ins[0].T == 2 && sp.Ins[1].T == 1 && first == 1 {
 			c.Sample(map[string]any{"case": kb.String(), "thresholds": sp.shape(), "verdict": "accept", "reference": why})
 		}
 		return true
@@ -690,9 +714,9 @@ func (w *c02World) aggCase(acc *c02Acc, sp *c02Spend, list []int, kind string, s
 		}
 	}
 	c02Judge(acc, form, stage, class, authorized, why, false,
-		func() string { return fmt.Sprintf("%s:accept-unauthorized:%s:sig=%s", form, sp.shape(), kind) },
+		func() string { return fmt.Sprintf("%s:accept-unauthorized:sig=%s", form, kind) },
 		func() any {
-			return map[string]any{"form": "aggregate", "inputs": sp.Label, "signers": list, "signature_kind": kind, "signature": sig.String(), "tx": c02Hex(ver)}
+			return map[string]any{"form": "aggregate", "inputs": sp.Label, "thresholds": sp.shape(), "signers": list, "signature_kind": kind, "signature": sig.String(), "tx": c02Hex(ver)}
 		})
 }
 
@@ -770,7 +794,7 @@ func (w *c02World) runAgg(c *verifmc.Check, sp *c02Spend) {
 			authorized, why := sp.aggReference(w, dec.AggregatedSignature)
 			stage, class := w.validate(dec)
 			c02Judge(acc, "agg-bytes", stage, class, authorized, why, false,
-				func() string { return "agg-bytes:accept-unauthorized:" + sp.shape() },
+				func() string { return "agg-bytes:accept-unauthorized" },
 				func() any { return map[string]any{"form": "aggregate-bytes", "inputs": sp.Label, "signers": list, "bytes": hex.EncodeToString(raw)} })
 		}
 	}
@@ -1117,18 +1141,33 @@ func TestMC_C02(t *testing.T) {
 	c.Set("threshold_0_and_64_outputs_created_through_real_validation", true) // deposit() panics otherwise
 	c.Set("synthetic_utxo_records", 0)
 
+	cpu := func() float64 {
+		var ru syscall.Rusage
+		_ = syscall.Getrusage(syscall.RUSAGE_SELF, &ru)
+		return float64(ru.Utime.Sec+ru.Stime.Sec) + float64(ru.Utime.Usec+ru.Stime.Usec)/1e6
+	}
+	lastCPU, lastWall := cpu(), time.Now()
+	phase := func(name string) {
+		now := cpu()
+		c.Set("phase_cpu_s/wall_s:"+name, fmt.Sprintf("%.1f/%.1f", now-lastCPU, time.Since(lastWall).Seconds()))
+		lastCPU, lastWall = now, time.Now()
+	}
+
 	// (4) first: cheap and independent of the ledger
 	c02Batch(c)
+	phase("batch")
 
 	// (1a) one input, all kinds, also through bytes
 	kinds := len(c02Ns) * len(c02Ts)
 	c.ParallelN(kinds, "one-input signature maps", func(k, i int) {
 		w := world(k)
-		w.runMap(c, w.spend(w.A[i]), -1, true)
+		w.runMap(c, w.spend(w.A[i]), -1, true, false)
 	})
 
+	phase("map1")
+
 	// (1b) two inputs
-	maxN, maxSum := verifmc.Pick(c, 2, 3), verifmc.Pick(c, 4, 5)
+	maxN, maxSum, reducedOOR := verifmc.Pick(c, 2, 3), verifmc.Pick(c, 4, 5), verifmc.Pick(c, true, false)
 	type unit struct{ a, b, first int }
 	var units []unit
 	for a := 0; a < kinds; a++ {
@@ -1148,12 +1187,14 @@ func TestMC_C02(t *testing.T) {
 		sj := c02Ns[units[j].a/len(c02Ts)] + c02Ns[units[j].b/len(c02Ts)]
 		return si > sj
 	})
-	c.Set("two_input_map_bound", fmt.Sprintf("n1,n2 <= %d and n1+n2 <= %d, every threshold pair", maxN, maxSum))
+	c.Set("two_input_map_bound", fmt.Sprintf("n1,n2 <= %d and n1+n2 <= %d, every threshold pair; out-of-range index restricted to {absent, valid, junk}: %v", maxN, maxSum, reducedOOR))
 	c.ParallelN(len(units), "two-input signature maps", func(k, i int) {
 		w := world(k)
 		u := units[i]
-		w.runMap(c, w.spend(w.A[u.a], w.B[u.b]), u.first, false)
+		w.runMap(c, w.spend(w.A[u.a], w.B[u.b]), u.first, false, reducedOOR)
 	})
+
+	phase("map2")
 
 	// (2) aggregate form: one input (15) and two inputs (225 combinations)
 	type aunit struct{ a, b int }
@@ -1173,6 +1214,8 @@ func TestMC_C02(t *testing.T) {
 			w.runAgg(c, w.spend(w.A[u.a], w.B[u.b]))
 		}
 	})
+
+	phase("aggregate")
 
 	// hand-encoder self check: a sorted sparse list must equal the canonical bytes
 	{
@@ -1204,6 +1247,8 @@ func TestMC_C02(t *testing.T) {
 			w.tamper(c, w.bases[tunits[i].base], tunits[i].byteIdx)
 		})
 	}
+
+	phase("tamper")
 
 	c.Sample(map[string]any{"form": "tamper", "what": "each of the 8 bits of every byte of 4 accepted transactions (map 2-of-3, aggregate 2-of-3 signers [0 2], two-input map, two-input aggregate signers [0 1 3])"})
 	c.Sample(map[string]any{"form": "aggregate forged envelope", "signers": []int{0, 0}, "through": "struct and hand-encoded sparse bytes"})
